@@ -348,6 +348,15 @@ class FP11AccumulatorOperandStub:
             )
             raise reports.RecoverableError("FP11 accumulator expected, expression passed")
 
+        if acc >= 2 ** len(self.bit_indexes):
+            insn = state["insn"]
+            reports.error(
+                "invalid-addressing",
+                (insn.ctx_start, insn.ctx_end, f"'{insn.name.name}' FP11 instruction can only use accumulators ac0 to ac{2 ** len(self.bit_indexes) - 1} in this position"),
+                (operand.ctx_start, operand.ctx_end, f"...but ac{acc} is used, which cannot be encoded in the {len(self.bit_indexes)}-bit accumulator field")
+            )
+            raise reports.RecoverableError("FP11 accumulator out of range")
+
         return acc, b""
 
 
